@@ -59,32 +59,9 @@ def _trace_conformance(ctx, tier, seed):
                          "dfs": run["tag"] == "dfs", "limit": 0, "snapshot": snap, "rootino": str(os.stat(w.paths[0]).st_ino),
                          "events": [{"ev": e["ev"], "ino": e.get("ino", ""), "reported": e.get("reported", False),
                                      "descend": e.get("descend", "")} for e in events], "argv": argv})
-    shards = 8
-    ok = 0
-    drift = []
-    states = 0
-
-    def one(i):
-        part = recs[i::shards]
-        if not part:
-            return [], 0, None
-        fn = os.path.join(ctx.scratch, "traces.%d.ndjson" % i)
-        with open(fn, "w") as f:
-            for rec in part:
-                f.write(json.dumps(rec) + "\n")
-        tr = lib.run_tlc("Trace_Walker", workers=1, env={"TRACES": fn}, tags=("TRACEOK",), xmx="3g", deadlock=False)
-        if tr.rc not in (0,) or tr.violated:
-            return tr.lines["TRACEOK"], tr.distinct, "TLC: %s" % (tr.violated or tr.out[-300:])
-        return tr.lines["TRACEOK"], tr.distinct, None
-    for i, (oks, st, err) in enumerate(lib.pmap(one, range(shards), workers=shards)):
-        part = recs[i::shards]
-        ok += len(oks)
-        states += st
-        if err or len(oks) < len(part):
-            first = part[len(oks)] if len(oks) < len(part) else part[-1]
-            drift.append("trace rejected after %d accepted runs in shard %d: argv=%s %s" % (len(oks), i, json.dumps(first["argv"])[:160], err or ""))
-    return {"name": "Walker", "kind": "trace-validation", "module": "Trace_Walker", "states": states, "validated": ok,
-            "rejected": len(recs) - ok, "events": sum(len(x["events"]) for x in recs), "drift": drift, "wall_s": round(time.time() - t0, 1)}
+    res = lib.validate_traces(ctx, "Trace_Walker", recs, shards=8)
+    res.update({"name": "Walker", "wall_s": round(time.time() - t0, 1)})
+    return res
 
 
 def conformance(tier, seed):
